@@ -41,9 +41,12 @@ def grid(tier, seed):
               ('ninf', 'i16', -8, 'i8', -1), ('ninf', 'u32', -6, 'u16', 0), ('nrst', 'i8', -7, 'i8', -2), ('nrst', 'i32', -16, 'i16', -2), ('nrst', 'i64', -30, 'i32', 0),
               ('tpi', 'u8', -3, 'u8', 0), ('tpi', 'i16', -8, 'i16', -4), ('nat', 'i16', -8, 'i16', -4), ('nat', 'u32', -8, 'u32', 0),
               ('nrst', 'i16', -4, 'i32', -8), ('tpi', 'u8', 0, 'u16', -4), ('ninf', 'i32', 2, 'i32', 0),
-              ('nrst', 'i32', -31, 'i32', 0), ('tpi', 'i8', -31, 'i8', 0), ('ninf', 'i64', -63, 'i64', 0), ('nrst', 'i16', -30, 'i16', 0)]
+              # the largest well-formed narrowing of each promoted width (k = digits is ill-formed since the repair of
+              # C09.wrapped_power_is_int_min: static_assert(0 < divisor) in default_scale)
+              ('nrst', 'i32', -30, 'i32', 0), ('tpi', 'i8', -30, 'i8', 0), ('ninf', 'i64', -62, 'i64', 0), ('nrst', 'i16', -30, 'i16', 0),
+              ('tpi', 'u32', -31, 'u32', 0)]
     k = 4 if tier == 'quick' else 40
-    while len(wfixed) < 25 + k:
+    while len(wfixed) < 26 + k:
         t = rnd.choice(list(TAGS)); s = rnd.choice(reps); d = rnd.choice(reps)
         es = rnd.choice([-28, -20, -16, -12, -8, -4, -2]); ed = es + rnd.choice([1, 2, 3, 5, 8, 12])
         if ed - es >= min(int(s[1:]), 31) - 1:
